@@ -321,12 +321,14 @@ type reqEvent struct {
 	beh        behaviour
 	returned   int // entries in the answer (full/prefix)
 	bad        bool
+	atMs       int64 // arrival, ms since the log was created (evidence/diagnostics only)
 }
 
 type fakeLog struct {
 	tree *fakeTree
 	plan planParams
 
+	t0       time.Time
 	mu       sync.Mutex
 	attempts map[int64]int
 	reqs     []reqEvent
@@ -335,7 +337,7 @@ type fakeLog struct {
 }
 
 func newFakeLog(t *fakeTree, p planParams) *fakeLog {
-	return &fakeLog{tree: t, plan: p, attempts: map[int64]int{}}
+	return &fakeLog{tree: t, plan: p, attempts: map[int64]int{}, t0: time.Now()}
 }
 
 func (f *fakeLog) writeEntries(sb *strings.Builder, from, to int64) { // [from, to]
@@ -394,7 +396,7 @@ func (f *fakeLog) ServeHTTP(w http.ResponseWriter, r *http.Request) {
 	if beh == bPrefix && end == start {
 		beh = bFull // a one-entry range has no non-empty strict prefix
 	}
-	ev := reqEvent{start: start, end: end, beh: beh}
+	ev := reqEvent{start: start, end: end, beh: beh, atMs: time.Since(f.t0).Milliseconds()}
 	to := end
 	if beh == bPrefix {
 		to = start + int64((h>>8)%uint64(end-start)) // start .. end-1
